@@ -247,3 +247,22 @@ package loader
 //@   maypanic
 //@   modifies *
 //@   loop 0 invariant rangeindex >= 0 - 1
+
+// ---- C18: `enum: @Rule` copies the rule's literals, in order, into the constraint
+// and leaves the rule itself untouched (the rule is shared by every schema that names it)
+//@ func getDetailsFromEnumError(err)
+//@   props C18
+//@   trusted
+//@   nopanic
+//@   pure
+//@ func (*enumValueLoader).ruleName(lex)
+//@   props C18
+//@   requires l != nil && l.enumConstraint != nil && l.enumConstraint.uniqueIdx != nil && l.rules != nil
+//@   requires lexWF(lex)
+//@   maypanic
+//@   modifies l.stateFunc, l.inProgress, l.enumConstraint.ruleName, l.enumConstraint.items, l.enumConstraint.items[*], l.enumConstraint.uniqueIdx[*]
+//@   ensures normal ==> !l.inProgress && len(l.enumConstraint.items) >= old(len(l.enumConstraint.items))
+//@   ensures normal ==> (forall j :: 0 <= j && j < old(len(l.enumConstraint.items)) ==> l.enumConstraint.items[j] == old(l.enumConstraint.items[j]))
+//@   loop 0 invariant len(l.enumConstraint.items) >= old(len(l.enumConstraint.items))
+//@   loop 0 invariant l.enumConstraint.items.$arr == old(l.enumConstraint.items.$arr) || fresh(l.enumConstraint.items)
+//@   loop 0 invariant forall j :: 0 <= j && j < old(len(l.enumConstraint.items)) ==> l.enumConstraint.items[j] == old(l.enumConstraint.items[j])
